@@ -138,6 +138,7 @@ static void run(int tier, int prog) {
   h_maybe_custom_steal(prog, cur->W);
   h_mutex_init(&mtx, prog & 1);
   static h_sentinel_t sent; h_sentinel_start(&sent, 4, prog);
+  static h_bystander_t byst; h_bystander_start(&byst, prog, cur->W);
   myth_thread_t th[3], by = 0;
   if (cur->bystander) by = myth_create(bystander, 0);
   for (int i = 0; i < cur->nth; i++) th[i] = myth_create(contender, (void *)(long)i);
@@ -153,6 +154,7 @@ static void run(int tier, int prog) {
   MV_CHECK(mtx.state == 0, "mutex state word is %ld after all threads finished (expected 0: free, nobody waiting)", (long)mtx.state);
   MV_CHECK(mtx.sleep_q->head == 0, "a thread is still on the mutex sleep queue at the end");
   mv_obs("acq=%d,%d,%d ebusy=%d,%d,%d to=%d,%d,%d", acquired[0], acquired[1], acquired[2], ebusy[0], ebusy[1], ebusy[2], timedout[0], timedout[1], timedout[2]);
+  h_bystander_finish(&byst);
   h_sentinel_finish(&sent);
   h_mutex_epilogue(&mtx, prog & 1);
   mv_finish();
